@@ -445,7 +445,10 @@ func checkValue(c *core.Case, e *entry, v any, why string, smp *valueSample) (fi
 	// written on the way must be well-formed (a defect that adds material on
 	// every cycle only breaks well-formedness from the second generation on).
 	c.Count("law_F_checked", 1)
-	gens := 3
+	// One more generation adds nothing when the comparison below is exact
+	// (encoding is a function of the value); it does where the value carries raw
+	// XML that is compared as trees.
+	gens := 2
 	if e.rawXML {
 		gens = 5
 	}
